@@ -34,7 +34,7 @@ def main():
         p.update(items)
     out = []
     for tid, calls in enumerate(job["seqs"], 1):
-        t = eng_api.replay(pool, calls, tid)
+        t = eng_api.replay_behaviour(pool, calls, tid)
         row = {"tid": tid, "outs": [canon(o) for o in t["outs"]], "fresh": [canon(o) for o in t["fresh"]],
                "ftrees": [J.show(f) for f in t["ftrees"]]}
         # value objects as set members / dict keys
